@@ -318,3 +318,64 @@ def communicator_class_wiring(K, dim, kernel, n_components):
         c.eulerian_to_lagrangian_grid_interpolation_kernel(lag, eul, wts, near)
         for idx in np.ndindex(*lag.shape):
             K.ensures_eq(f"constant_field_interpolates_to_itself{list(idx)}", float(lag[idx]), 1.0, props=("C06",))
+
+
+@unit("interp_weights_native_near_cell_centres", props=("C06",), kernels=False, native_check=True,
+      configs=[dict(dim=d, kernel=k, precision=p) for d in (2, 3) for k in ("cosine", "peskin") for p in ("double", "single")],
+      desc="BOUNDED native stand-in for the rounding part of C06 (the symbolic units use exact arithmetic): markers on cell "
+           "centres and cell faces and one ulp either side, in both precisions")
+def interp_weights_native_near_cell_centres(K, dim, kernel, precision):
+    """real communicator object on the compiled kernels; marker coordinates are cell centres (m + 1/2) dx and cell faces
+    m dx as the floating-point numbers the caller would compute, and their two floating-point neighbours."""
+    if K.mode == "sym":
+        return None
+    real_t = np.float64 if precision == "double" else np.float32
+    tol = 1e-11 if precision == "double" else 2e-5
+    K.tol = tol
+    n = 16
+    dx = real_t(K.rng.choice([1.0 / 16, 0.1, 1.0 / 3, 0.7]))
+    shift = real_t(dx / 2)
+    cells = [int(c) for c in K.rng.integers(2, n - 3, size=4)]
+    base = []
+    for m in cells:
+        centre = real_t(real_t(m) * dx + shift)
+        face = real_t(real_t(m) * dx)
+        for x in (centre, face):
+            base += [x, np.nextafter(x, real_t(np.inf)), np.nextafter(x, real_t(-np.inf))]
+    n_mark = len(base)
+    pos = np.zeros((dim, n_mark), dtype=real_t)
+    for a in range(dim):
+        pos[a] = np.roll(np.array(base, dtype=real_t), 5 * a)  # different near-degenerate combinations per axis
+    cls = K.repo(f"{MOD.format(d=dim)}:EulerianLagrangianGridCommunicator{dim}D")
+    c = cls(dx=dx, eul_grid_coord_shift=shift, num_lag_nodes=n_mark, interp_kernel_width=W, real_t=real_t,
+            n_components=1, interp_kernel_type=kernel)
+    sup = np.zeros((dim,) + (2 * W,) * dim + (n_mark,), dtype=real_t)
+    near = np.zeros((dim, n_mark), dtype=int)
+    wts = np.zeros((2 * W,) * dim + (n_mark,), dtype=real_t)
+    c.local_eulerian_grid_support_of_lagrangian_grid_kernel(sup, near, pos)
+    work = sup.copy()  # the weight kernels use their second argument as work space
+    c.interpolation_weights_kernel(wts, work)
+    vol = float(dx) ** dim
+    axes = tuple(range(dim))
+    K.ensures("weights_nonnegative_up_to_rounding", bool(np.all(wts.astype(np.float64) * vol >= -tol)))
+    total = wts.astype(np.float64).sum(axis=axes) * vol
+    K.ensures_eq("partition_of_unity_up_to_rounding", float(np.abs(total - 1.0).max()), 0.0)
+    # the four-point support really is the four cells nearest to the marker: |distance| <= 2 dx (+ rounding) everywhere
+    K.ensures("support_within_two_cells_up_to_rounding", bool(np.all(np.abs(sup.astype(np.float64)) <= 2.0 * float(dx) * (1 + 1e-6))))
+    if kernel == "peskin":
+        for a in range(dim):
+            mom = (wts.astype(np.float64) * sup[a].astype(np.float64)).sum(axis=axes) * vol / float(dx)
+            K.ensures_eq(f"first_moment_vanishes_up_to_rounding[{a}]", float(np.abs(mom).max()), 0.0)
+    # interpolating the constant 1 and (Peskin) the simulator-style cell-centre coordinate field
+    shape = (n,) * dim
+    one = np.ones(shape, dtype=real_t)
+    lag = np.zeros((n_mark,), dtype=real_t)
+    c.eulerian_to_lagrangian_grid_interpolation_kernel(lag, one, wts, near)
+    K.ensures_eq("constant_field_interpolates_to_itself_up_to_rounding", float(np.abs(lag.astype(np.float64) - 1.0).max()), 0.0)
+    if kernel == "peskin":
+        for a in range(dim):
+            idx = np.indices(shape)[dim - 1 - a]
+            coord = ((idx + 0.5) * float(dx)).astype(real_t)
+            c.eulerian_to_lagrangian_grid_interpolation_kernel(lag, coord, wts, near)
+            err = np.abs(lag.astype(np.float64) - pos[a].astype(np.float64)).max() / (n * float(dx))
+            K.ensures_eq(f"coordinate_field_interpolates_to_the_marker_position_up_to_rounding[{a}]", float(err), 0.0)
